@@ -122,11 +122,14 @@ def errors():
                  [ir.field("beta", ir.prim("STRING"))], package=PKG),
         ir.error("ErrKeyword", "Verif", "TIMEOUT", [ir.field("type", ir.prim("STRING")), ir.field("fooBar", ir.prim("INTEGER"))],
                  [ir.field("self", ir.prim("STRING")), ir.field("snake_case", ir.list_(ir.prim("INTEGER")))], package=PKG),
+        # names whose Rust spelling differs from the declared one (case conversion of acronyms and digits)
+        ir.error("IOError", "Verif", "INTERNAL", [ir.field("path", ir.prim("STRING"))], [], package=PKG),
+        ir.error("A1B2Mismatch", "Verif", "FAILED_PRECONDITION", [], [ir.field("n", ir.prim("INTEGER"))], package=PKG),
     ]
 
 
 def error_types():
-    return ["ErrAll", "ErrEmpty", "ErrOptOnly", "ErrSorted", "ErrKeyword"]
+    return ["ErrAll", "ErrEmpty", "ErrOptOnly", "ErrSorted", "ErrKeyword", "IoError", "A1b2Mismatch"]      # Rust type names
 
 
 def wire_types():
